@@ -6,25 +6,18 @@
    any call lists) by SOME schedule, so every theorem over [reach] holds for every interleaving,
    at every atomic step.
 
-   FULL STATEMENT NOT PROVED (kept here so that it is not lost; see level_note):
-     C05_conservation_except_late_claim :
-       forall B ps c, 1 <= B -> reach B true ps c -> late (fst c) = false ->
-         NoDup (identities handed to clear_with callbacks in c)  /\
-         Permutation (identities whose push executed its 503 step in c)
-                     (handed to clears in c ++ published in blocks reachable from tail
-                      ++ published in blocks of chains detached by a clearer that has not read them yet)
-     together with the ownership invariant it needs (J4: a detached chain is walked by exactly the
-     clearer whose 541 CAS succeeded; (J3) partition of identities), and
-     C05_snapshot_sees_completed / C05_is_empty_sound (a completed snapshot hands out every
-     identity published before its first step and not detached before it; is_empty = true likewise,
-     for fewer than B threads) and C05_spec_ok_on_model (spec_ok holds on every model run outside
-     the late-claim class).  What IS proved for all schedules is C05_conservation_partial below:
-     the per-block protocol (J2/J5), uniqueness of claims, the chain structure (J1) and that reads
-     hand out written slots only; the sequential refinement C05_sequential_bag is complete.      *)
-From Coq Require Import List NArith Bool Arith Permutation.
+   C05_conservation_except_late_claim (below) is now proved in full for every schedule: the
+   hypothesis [late (fst c) = false] says that no fetch_add returned an index < B on a block not
+   reachable from tail (the ghost flag is set by exactly that event and never reset); for model
+   runs of a case this is [known_class c = None] (C05_conservation_on_model_runs).
+   STILL NOT PROVED (see level_note): C05_snapshot_sees_completed / C05_is_empty_sound for
+   concurrent runs (what a snapshot, as opposed to a clear, must show), and C05_spec_ok_on_model /
+   C05_spec_ok_iff (that the trace-level checker spec_ok accepts every model run outside the
+   class, and what its acceptance means at the Prop level).                                      *)
+From Coq Require Import List NArith Bool Arith Permutation Lia.
 Import ListNotations.
 Require Import MV.Common.Interleave MV.C05.Model MV.C05.Spec MV.C05.Exec.
-Require Import MV.C05.ProofsSeq MV.C05.ProofsInv MV.C05.ProofsCor.
+Require Import MV.C05.ProofsSeq MV.C05.ProofsInv MV.C05.ProofsCor MV.C05.ProofsUniq MV.C05.ProofsCons MV.C05.ProofsProg.
 Local Open Scope nat_scope.
 
 (* (1) complete calls, run one after the other by any threads, are exactly the bag operations:
@@ -49,7 +42,7 @@ Theorem C05_sequential_run_unique : forall B s l s1 l1 s2 l2,
 Proof. exact steps_det. Qed.
 
 (* (2)+(3) the protocol and chain invariants hold after every schedule *)
-Theorem C05_conservation_partial : forall B fxc ps sched, 1 <= B ->
+Theorem C05_protocol_invariant_every_schedule : forall B fxc ps sched, 1 <= B ->
   Inv B (fst (exec (step B true fxc) site (init_config ps) sched)).
 Proof. intros B fxc ps sched HB. apply reachable_Inv. exact HB. Qed.
 
@@ -94,6 +87,114 @@ Theorem C05_chain_acyclic_nonhead_full : forall B fxc ps c, 1 <= B -> reach B fx
   exists ids, Chain (heap (fst c)) (tail (fst c)) ids /\
               (forall b d, In b ids -> bnxt (getb (heap (fst c)) b) = Some d -> B <= bw (getb (heap (fst c)) d)).
 Proof. intros B fxc ps c HB R. pose proof (reach_Inv B HB fxc ps c R) as HI. eapply chain_exists; eauto. Qed.
+
+(* (4a) UNIQUENESS OF DELIVERY, every schedule, with or without late claims: the invariant [All]
+   = protocol invariant + (Q1) push identities are (thread, call index) + (Q2/Q3) an identity
+   occurs in at most one slot of the heap + (Q4 = J4) the chains hanging off tail and off every
+   clearing thread are pairwise disjoint + (Q5) every identity handed to a clear sits in a retired
+   block and is counted at most once over ALL clearing reads of ALL threads *)
+Theorem C05_uniqueness_invariant_every_schedule : forall B fxc ps sched, 1 <= B ->
+  All B (fst (exec (step B true fxc) site (init_config ps) sched)).
+Proof. intros B fxc ps sched HB. apply reachable_All. exact HB. Qed.
+
+Theorem C05_no_identity_cleared_twice : forall B fxc ps c id, 1 <= B -> reach B fxc ps c ->
+  sumf (cnt id) (snd c) <= 1.
+Proof.
+  intros B fxc ps c id HB (sched & ->). pose proof (reachable_All B HB fxc ps sched) as (_ & _ & _ & _ & _ & [H _]). apply H.
+Qed.
+
+Theorem C05_clears_of_one_thread_have_no_duplicates : forall B fxc ps c u l, 1 <= B -> reach B fxc ps c ->
+  nth_error (snd c) u = Some l -> NoDup (map vid (cleared_local l)).
+Proof. intros B fxc ps c u l HB (sched & ->) Hl. eapply cleared_nodup_thread; eauto. apply reachable_All. exact HB. Qed.
+
+Theorem C05_clears_of_two_threads_are_disjoint : forall B fxc ps c u v l l' x x', 1 <= B -> reach B fxc ps c ->
+  u <> v -> nth_error (snd c) u = Some l -> nth_error (snd c) v = Some l' ->
+  In x (cleared_local l) -> In x' (cleared_local l') -> vid x = vid x' -> False.
+Proof.
+  intros B fxc ps c u v l l' x x' HB (sched & ->). pose proof (reachable_All B HB fxc ps sched) as HA.
+  intros. eapply cleared_disjoint_threads; eauto.
+Qed.
+
+(* J4: a detached chain is owned by exactly the clearer whose CAS succeeded *)
+Theorem C05_detached_chains_have_one_owner : forall B fxc ps c, 1 <= B -> reach B fxc ps c -> Q4 c.
+Proof. intros B fxc ps c HB (sched & ->). pose proof (reachable_All B HB fxc ps sched) as (_ & _ & _ & _ & H & _). exact H. Qed.
+
+(* an identity occurs in at most one slot of the whole heap *)
+Theorem C05_identity_in_one_slot : forall B fxc ps c, 1 <= B -> reach B fxc ps c -> Q3 c.
+Proof. intros B fxc ps c HB (sched & ->). pose proof (reachable_All B HB fxc ps sched) as (_ & _ & _ & H & _). exact H. Qed.
+
+(* no fabrication: whatever sits in a slot is the value a push call of the program was given,
+   tagged (thread, index of that call); and so is whatever was handed to a clear *)
+Theorem C05_no_fabrication : forall B fxc ps sched, 1 <= B ->
+  let c := fst (exec (step B true fxc) site (init_config ps) sched) in
+  (forall b i x, slot (heap (fst c)) b i = Some x -> genuine ps x) /\
+  (forall x, cleared_in (snd c) x -> genuine ps x).
+Proof.
+  intros B fxc ps sched HB c. pose proof (reachable_R B HB fxc ps sched) as (_ & R2 & _). fold c in R2.
+  split; [exact R2|]. intros x (u & l & Hl & Hx).
+  pose proof (reachable_All B HB fxc ps sched) as (_ & _ & _ & _ & _ & [_ H5b]). fold c in H5b.
+  destruct (H5b u l x Hl Hx) as (b & i & Hs & _). eauto.
+Qed.
+
+(* (4) CONSERVATION, every schedule without a late claim, any number of threads, every B >= 1.
+   For every COMPLETED push call (thread u, call index k below u's current call index, the
+   program says push v):  its identity sits in a published slot of exactly one block b;  b is
+   either still owned (reachable from tail = resident in the live chain, or reachable from the
+   clearing thread that detached it and has not read it yet) or the value has been handed to a
+   clear;  never both;  and it is handed out at most once over all clearing reads of all threads. *)
+Theorem C05_conservation_except_late_claim : forall B fxc ps sched u l p k v, 1 <= B ->
+  let c := fst (exec (step B true fxc) site (init_config ps) sched) in
+  late (fst c) = false ->
+  nth_error (snd c) u = Some l -> nth_error ps u = Some p ->
+  k < N.to_nat (cidx l) -> nth_error p k = Some (CPush v) ->
+  exists b i, slot (heap (fst c)) b i = Some (N.of_nat u, N.of_nat k, v) /\ pub (heap (fst c)) b i /\
+              (forall b' i' x', slot (heap (fst c)) b' i' = Some x' -> vid x' = (N.of_nat u, N.of_nat k) -> b' = b /\ i' = i) /\
+              (~ Owned c b -> cleared_in (snd c) (N.of_nat u, N.of_nat k, v)) /\
+              (cleared_in (snd c) (N.of_nat u, N.of_nat k, v) -> ~ Owned c b) /\
+              sumf (cnt (N.of_nat u, N.of_nat k)) (snd c) <= 1.
+Proof.
+  intros B fxc ps sched u l p k v HB c HL Hl Hp Hk Hn.
+  pose proof (reachable_R B HB fxc ps sched) as (_ & _ & R3). fold c in R3.
+  pose proof (reachable_AllK B HB fxc ps sched) as HK. fold c in HK.
+  destruct (conservation B c HK HL) as (C1 & C2 & C3 & _).
+  pose proof HK as [(_ & _ & _ & H3 & _) _].
+  destruct (R3 u l p k v Hl Hp Hk Hn) as (b & i & Hs & Hpb).
+  exists b, i. split; [exact Hs|split; [exact Hpb|split; [|split; [|split]]]].
+  - intros b' i' x' Hs' E. apply (H3 b' i' b i x' _ Hs' Hs). exact E.
+  - intros Hno. eapply C1; eauto.
+  - intros Hc. destruct (C2 _ Hc) as (b' & i' & Hs' & Hno & Hu).
+    destruct (Hu b i _ Hs eq_refl) as [-> _]. exact Hno.
+  - apply C3.
+Qed.
+
+(* the same partition stated on the heap: published value outside the owned region <-> handed
+   to a clear (once); retired blocks are complete (nothing in flight, nothing more to come) *)
+Theorem C05_published_partition : forall B fxc ps sched, 1 <= B ->
+  let c := fst (exec (step B true fxc) site (init_config ps) sched) in
+  late (fst c) = false ->
+  (forall b i x, slot (heap (fst c)) b i = Some x -> pub (heap (fst c)) b i -> ~ Owned c b -> cleared_in (snd c) x) /\
+  (forall x, cleared_in (snd c) x ->
+             exists b i, slot (heap (fst c)) b i = Some x /\ ~ Owned c b /\
+                         forall b' i' x', slot (heap (fst c)) b' i' = Some x' -> vid x' = vid x -> b' = b /\ i' = i) /\
+  (forall id, sumf (cnt id) (snd c) <= 1) /\
+  (forall d, d < length (heap (fst c)) -> ~ Owned c d -> complete B (heap (fst c)) d).
+Proof. intros B fxc ps sched HB c HL. apply conservation; [apply reachable_AllK; exact HB|exact HL]. Qed.
+
+(* the runs the check evaluates (schedule + round-robin tail, B = 64): outside the known class
+   the conservation invariant holds at the end of the run *)
+Theorem C05_conservation_on_model_runs : forall c, known_class c = None ->
+  let cf := fst (run_gen BS true true c) in
+  late (fst cf) = false /\ AllK BS cf /\ R (fst c) cf.
+Proof.
+  intros c Hk cf. assert (HB : 1 <= BS) by (unfold BS; lia).
+  split; [|split].
+  - unfold known_class, late_claim_gen in Hk. fold cf in Hk. destruct (late (fst cf)); [discriminate|reflexivity].
+  - unfold cf, run_gen. apply invariant_exec_full; [exact (AllK_step BS HB true)|exact (AllK_init BS HB true (fst c))].
+  - unfold cf, run_gen.
+    apply (invariant_exec_full (step BS true true) site (fun c0 => All BS c0 /\ R (fst c) c0)
+             (R_step BS HB true (fst c)) rr_fuel (map N.to_nat (snd c)) (init_config (fst c))).
+    split; [exact (All_init BS HB true (fst c))|exact (R_init BS HB (fst c))].
+Qed.
 
 (* the open finding: inside the class the property fails (witness replayed on the real code:
    corpus/C05/b-late-claim-lost.json) *)
